@@ -5,5 +5,10 @@ C=$1; PID=$2; TIER=${3:-quick}
 WT=/tmp/revtry-$C-$$
 git -C /repo worktree add -q --detach $WT HEAD || exit 2
 trap 'git -C /repo worktree remove --force $WT 2>/dev/null; rm -rf $WT; rm -f $VERIF/harness/alt_tmp_revtry*' EXIT
-git -C $WT revert --no-commit $C >/dev/null 2>&1 || { echo "revert failed"; exit 2; }
+if ! git -C $WT revert --no-commit $C >/dev/null 2>&1; then
+  # later repairs changed the same lines: take the reverted side of the conflicting hunks
+  git -C $WT revert --abort >/dev/null 2>&1; git -C $WT reset -q --hard HEAD
+  git -C $WT revert --no-commit -X theirs $C >/dev/null 2>&1 || { echo "revert failed"; exit 2; }
+  ( cd $WT && GOFLAGS=-mod=mod GOPROXY=off GOSUMDB=off GOTOOLCHAIN=local go build ./... >/dev/null 2>&1 && cd schema && GOFLAGS=-mod=mod GOPROXY=off GOSUMDB=off GOTOOLCHAIN=local go build ./... >/dev/null 2>&1 ) || { echo "revert failed (does not build after resolving conflicts)"; exit 2; }
+fi
 cd $VERIF && VERIF_REPO=$WT timeout 3000 python3 tools/check.py $PID --tier $TIER 2>&1 | grep -v '^KNOWN-FINDING' | tail -3
